@@ -178,15 +178,49 @@ def run(ctx):
             # model = spec by theorem on integers; on floats the model carries the spec's decision logic
             kind = 'oracle' if (rm == 'none' or ri == 'none' or op == 'integerDivide') else 'corr'
             ctx.fail(kind, c, impl=ri, model=rm, expect=rm, note='implementation differs from the Lean model (NUM suite)')
+    # the same operations as INSTRUCTIONS on both data stores (property: "result of the Add..BitwiseShiftRight instructions"):
+    # operands are built in the store, one instruction is executed, the result is read back — an integer next to the float of
+    # the same magnitude in one store (3 + 0.0, 1.5 * 2, 7.0 // 1) must not be confused by the store`s interning
+    op_dis = 0
+    n_op = 0
+    if not ctx.replay:
+        import opsuite
+        ARITH_BIN = ['Add', 'Subtract', 'Multiply', 'Divide', 'IntegerDivide', 'Remainder', 'Power', 'BitwiseAnd', 'BitwiseOr', 'BitwiseXor', 'BitwiseShiftLeft', 'BitwiseShiftRight']
+        ARITH_UN = ['Opposite', 'AbsoluteValue', 'BitwiseNot']
+        def ft(x): return '(f %016x)' % struct.unpack('<Q', struct.pack('<d', x))[0]
+        nums = ['(i 0)', '(i 1)', '(i 2)', '(i 3)', '(i 7)', '(i -1)', '(i -7)', '(i 31)', '(i 32)', '(i 2147483647)', '(i -2147483648)',
+                ft(0.0), ft(1.0), ft(2.0), ft(3.0), ft(7.0), ft(-1.0), ft(0.5), ft(1.5), ft(-2.5), ft(2147483647.0), ft(2147483648.0), ft(1e300)]
+        ocases = []
+        for st in ('simple', 'basic'):
+            for ins in ARITH_BIN:
+                for a in nums:
+                    for b in nums:
+                        ocases.append(['OP', 'o%d' % len(ocases), st, ins, 'decline', a, b])
+            for ins in ARITH_UN:
+                for a in nums:
+                    ocases.append(['OP', 'o%d' % len(ocases), st, ins, 'decline', a, '-'])
+        rows = opsuite.run(ocases, 'c09op', bool(model))
+        n_op = len(ocases)
+        for c, ri, rm, skip in rows:
+            ctx.distinct.add(('OP', c[2], c[3], c[5], c[6]))
+            k = (ri or 'missing').split(' ')[0]
+            if k in ('PANIC', 'HANG', 'ABORT', 'missing'):
+                ctx.fail('oracle', c, impl=ri, model=rm, expect='a number or unit', note=f'{k} executing an arithmetic instruction')
+            elif rm is not None and not skip and ri != rm:
+                op_dis += 1
+                pi, pm = opsuite.parse_result(ri), opsuite.parse_result(rm)
+                ctx.fail('oracle', c, impl=ri, model=rm, expect=rm, note=f'result of the {c[3]} instruction on {c[2]} differs from the exact-or-unit model: got {pi.get("top")}, expected {pm.get("top")}')
+        ctx.evaluations += n_op
+    ctx.oblige('suite OP.arithmetic (instruction results on both stores = Lean model)', 'suite', op_dis == 0, f'{op_dis} disagreement(s)')
     ctx.oblige('suite NUM.int+NUM.float (implementation = Lean model on every case)', 'suite', disagree == 0 and bool(model),
                f'{disagree} disagreement(s)' if model else 'driver unavailable')
     lat = lattice()
     ctx.rule = ('NUM cases (op, a, b): the full boundary lattice of i32 (%d values: MIN, MIN+1, ±2^k, ±2^k±1, -1, 0, 1, MAX-1, MAX) squared × 12 binary ops '
                 'and × 5 unary ops (exhaustive), shift counts/exponents -3..69 × lattice, random i32 pairs, a %d-value float lattice squared and mixed with %d ints, random floats by bit pattern; '
                 'distinct_nontrivial = distinct (op,a,b) with not both operands in {0,1}. Every integer case is checked against an independent exact-integer oracle '
-                'and against the Lean model (which the C09 theorems equate with Spec); float cases against the Lean model on hardware doubles and the finite-or-none rule.' % (len(lat), len(FLOATS), len(INTS_SMALL)))
+                'and against the Lean model (which the C09 theorems equate with Spec); the 15 arithmetic INSTRUCTIONS executed on both data stores over a 23-value lattice of integers and floats of equal magnitude (squared) against the value-level model; float cases against the Lean model on hardware doubles and the finite-or-none rule.' % (len(lat), len(FLOATS), len(INTS_SMALL)))
     ctx.exhaustive = False
-    ctx.suites = {'NUM.int': nint, 'NUM.float': nfloat}
+    ctx.suites = {'NUM.int': nint, 'NUM.float': nfloat, 'OP.arithmetic (instructions on both stores)': n_op}
     ctx.distribution = {'result_kinds': results}
     for c in cases[:: max(1, len(cases) // 8)][:8]:
         ctx.sample({'case': c[2:], 'impl': impl.get(c[1]), 'model': model.get(c[1])}, cap=80)
